@@ -18,6 +18,9 @@ def spellings(q):
     out.append(("import_m_as", ["import %s as zz_a" % m], "zz_a.%s" % f))
     out.append(("from_m_import_f", ["from %s import %s" % (m, f)], f))
     out.append(("from_m_import_f_as", ["from %s import %s as zz_g" % (m, f)], "zz_g"))
+    # a method / an inner function of the same name does not rebind the module-level name
+    out.append(("from_m_import_f_method_same_name", ["from %s import %s" % (m, f), "class ZzSame:", "    def %s(self, *zz_a):" % f, "        return zz_a"], f))
+    out.append(("from_m_import_f_as_inner_def_same_name", ["from %s import %s as zz_g" % (m, f), "def zz_outer():", "    def zz_g():", "        pass", "    return zz_g"], "zz_g"))
     if len(mod) >= 2:
         p, x = ".".join(mod[:-1]), mod[-1]
         out.append(("from_p_import_m", ["from %s import %s" % (p, x)], "%s.%s" % (x, f)))
